@@ -735,6 +735,29 @@ class Tr:
                                                                          k(Ctor('Unit'), dict(env2, __w=w2)))
                 return self.evs(args, env, g)
             raise Unsupported('writer method %s' % name)
+        if name in ('wrapping_add', 'wrapping_sub', 'saturating_sub', 'saturating_add', 'checked_sub', 'checked_add', 'min', 'max', 'abs_diff') and len(args) == 1:
+            w = INT_W.get(self.ity(recv, env) or 'usize', 64)
+            def g(vs, env2):
+                a, b = paren(self.text(vs[0])), paren(self.text(vs[1]))
+                M = 2 ** w
+                if name == 'wrapping_add':
+                    return k(Pure('((%s + %s) mod %d)' % (a, b, M)), env2)
+                if name == 'wrapping_sub':
+                    return k(Pure('((%s + %d - %s) mod %d)' % (a, M, b, M)), env2)
+                if name == 'saturating_sub':
+                    return k(Pure('(%s - %s)' % (a, b)), env2)       # truncated subtraction of N
+                if name == 'saturating_add':
+                    return k(Pure('(N.min (%s + %s) %d)' % (a, b, M - 1)), env2)
+                if name == 'checked_sub':
+                    return k(If('%s <=? %s' % (b, a), Ctor('Some', [Pure('(%s - %s)' % (a, b))]), Ctor('None')), env2)
+                if name == 'checked_add':
+                    return k(If('%s + %s <? %d' % (a, b, M), Ctor('Some', [Pure('(%s + %s)' % (a, b))]), Ctor('None')), env2)
+                if name == 'abs_diff':
+                    return k(Pure('(N.max %s %s - N.min %s %s)' % (a, b, a, b)), env2)
+                return k(Pure('(N.%s %s %s)' % (name, a, b)), env2)
+            return self.evs([recv, args[0]], env, g)
+        if name == 'is_none' and not args:
+            return self.ev(recv, env, lambda v, env2: k(self.vmap(v, lambda x: Pure('(negb (is_some %s))' % paren(self.text(x)))), env2))
         if name == 'is_some' and not args:
             return self.ev(recv, env, lambda v, env2: k(self.vmap(v, lambda x: Pure('(is_some %s)' % paren(self.text(x)))), env2))
         if name == 'to_be_bytes' and not args:
